@@ -17,7 +17,7 @@
                         authority's meta and renaming it (pc StMetaRename).  The three known findings S13 / S13b /
                         S13c are exactly the schedules excluded by it (c18_witnesses_are_overlaps). *)
 From RipV Require Import Base.Prelude Model.Authority Proofs.AuthorityInv Proofs.AuthorityLive Proofs.AuthorityTake Proofs.AuthorityProofs.
-From RipV Require Import Proofs.AuthorityFair.
+From RipV Require Import Proofs.AuthorityFair Proofs.AuthorityRounds.
 From RipV Require Import Model.AuthorityGrace Proofs.AuthorityGraceProofs.
 
 (* ---- exclusive create: no dead leftovers (no files at all), ANY number of contenders, ANY crash-free schedule *)
@@ -224,8 +224,7 @@ Print Assumptions c18_corrupt_cleanup_needs_grace.
    At EVERY point of EVERY such schedule — races S13 / S13b / S13c included — either an authority has already emerged
    (some prefix of the schedule has a holder), or some contender, given at most 20 uninterrupted steps of its own (timer
    expired), becomes the authority: no reachable state is a wedge.  A fair scheduler that eventually leaves some contender
-   alone for 20 steps therefore recovers the store.  (What is NOT proved: termination under weak fairness alone, i.e. a
-   bound on the number of rounds of an arbitrary fair interleaving.) *)
+   alone for 20 steps therefore recovers the store.  (Termination under round fairness: next theorem.) *)
 Theorem c18_recovers_from_every_reachable_state :
   forall (l : lockf) (m : metaf) (ps : list proc) (es : list event),
   servers ps -> dead_leftover ps l m -> calm es = true ->
@@ -239,6 +238,26 @@ Example c18_recovers_fair_example :
   /\ holders (run true (init (LRec 900) MAbsent fair_two) mid_race) = []
   /\ holders (run true (init (LRec 900) MAbsent fair_two) (mid_race ++ repeat (Step 0%nat 2) 4)) = [1].
 Proof. exact fair_example. Qed.
+
+(* ---- FAIR schedules.  A round is a piece of schedule in which EVERY contender takes at least one step (any order, any
+   multiplicity; covers n r), all steps calm and with the 1 s timer expired (fair r: ping bit 0, deadline bit 0, timer bit 1);
+   rounds_of n rs: rs is a list of such rounds.  Every schedule made of 15 rounds — however the contenders interleave inside
+   the rounds, races S13 / S13b / S13c included — contains a point at which an authority holds the store.  (Rank argument:
+   the minimum over the contenders of the own steps still needed to reach the next rename / create / write never increases
+   and decreases in every round; initially <= 14.) *)
+Theorem c18_recovers_under_fair_rounds :
+  forall (l : lockf) (m : metaf) (ps : list proc) (rs : list (list event)),
+  servers ps -> dead_leftover ps l m -> rounds_of (length ps) rs -> (15 <= length rs)%nat ->
+  exists es1 es2 : list event, concat rs = es1 ++ es2 /\ holders (run true (init l m ps) es1) <> [].
+Proof. exact recovers_under_fair_rounds. Qed.
+Print Assumptions c18_recovers_under_fair_rounds.
+
+Example c18_fair_rounds_example :
+  servers fair_two /\ dead_leftover fair_two (LRec 900) (MRec 900)
+  /\ rounds_of (length fair_two) (repeat rr_round 15) /\ (15 <= length (repeat rr_round 15))%nat
+  /\ holders (run true (init (LRec 900) (MRec 900) fair_two) (concat (repeat rr_round 11))) = []
+  /\ holders (run true (init (LRec 900) (MRec 900) fair_two) (concat (repeat rr_round 12))) = [1].
+Proof. exact fair_rounds_example. Qed.
 
 (* ==== the corrupt-lock grace timer (Model/AuthorityGrace.v) ===========================================================
    Above, "lock json invalid for > 1 s" is an adversarial answer constrained by `assume_grace`.  Here is where the answer
